@@ -183,11 +183,14 @@ def run_textfuzz(res, prop, tier, work):
                 if h['post']:
                     B = list(A); B[h['os'] + len(h['pre']) + len(h['del']) + len(h['post']) - 1] = 'z'; variants.append(B)
             variants.append(['a'] + A)
+            if A:
+                # the file lost its final newline: its last line is another line than the one the hunks show
+                variants.insert(0, A[:-1] + [A[-1] + '~'])
             if variants and len(variants) > 1:
                 variants.append(['b'] + variants[0])
             body = b''.join(render.hunk_text(h, 0) for h in hs)
             patch = b'--- a/f\n+++ b/f\n' + body
-            for F in variants[:4]:
+            for F in variants[:5]:
                 for lim in (0, 1, 2):
                     jobs.append({'id': len(jobs), 'a': render.file_bytes(F, 0).hex(), 'patch': patch.hex(), 'strip': 1, 'reverse': False, 'fuzz': lim})
                     recs.append({'F': F, 'hs': plain, 'lim': lim})
@@ -210,7 +213,8 @@ def run_textfuzz(res, prop, tier, work):
                 continue
             else:
                 data = bytes.fromhex(o['out']) if o['out'] is not None else b''
-                outl = [l.decode('latin-1') for l in data.split(b'\n')[:-1]]
+                parts = data.split(b'\n')
+                outl = [l.decode('latin-1') for l in parts[:-1]] + ([parts[-1].decode('latin-1') + '~'] if parts[-1] else [])
                 rep = [{'ok': r[0], 'line': r[1], 'fuzz': r[3]} for r in o['reports']]
                 if len(rep) != len(rec['hs']):
                     continue
